@@ -13,6 +13,12 @@ Proof.
   induction l as [|x r IH]; simpl; [constructor|]. destruct (p x) eqn:E; simpl; [constructor; assumption | constructor].
 Qed.
 
+Lemma nth_firstn_lt {A} (l : list A) d : forall n i, (i < n)%nat -> nth i (firstn n l) d = nth i l d.
+Proof.
+  induction l as [|x r IH]; intros n i Hi; [destruct n, i; reflexivity|].
+  destruct n; [lia|]. destruct i; [reflexivity|]. cbn [firstn nth]. apply IH. lia.
+Qed.
+
 Lemma firstn_firstn_le {A} (l : list A) a b : (a <= b)%nat -> firstn a (firstn b l) = firstn a l.
 Proof. intro H. rewrite firstn_firstn. f_equal. lia. Qed.
 
@@ -104,6 +110,56 @@ Section Gap.
       replace (length t + (gap - existing) - gap)%nat with (length t - existing)%nat by lia.
       rewrite skipn_app. replace (length t - existing - length t)%nat with 0%nat by lia. cbn [skipn].
       unfold all_unused. apply Forall_app. split; assumption.
+  Qed.
+
+  Lemma count_leading_all {A} (p : A -> bool) l : Forall (fun x => p x = true) l -> count_leading p l = length l.
+  Proof. induction 1 as [|x r Hx _ IH]; [reflexivity|]. cbn [count_leading length]. rewrite Hx, IH. reflexivity. Qed.
+
+  (* a second call right after the first generates nothing *)
+  Theorem ensure_gap_idempotent gap t : wf_table t ->
+    ensure_gap addr_of gap (fst (ensure_gap addr_of gap t)) = (fst (ensure_gap addr_of gap t), []).
+  Proof.
+    intro Hwf. pose proof (ensure_gap_spec gap t Hwf) as H.
+    destruct (ensure_gap addr_of gap t) as [t' fresh]. cbn [fst]. destruct H as [_ [_ [Hl Hs]]].
+    unfold ensure_gap.
+    assert (E : count_leading unused (firstn gap (rev t')) = gap).
+    { rewrite firstn_rev. rewrite count_leading_all.
+      - rewrite rev_length, skipn_length. lia.
+      - apply Forall_rev. exact Hs. }
+    rewrite E, Nat.eqb_refl. reflexivity.
+  Qed.
+
+  Lemma count_leading_stop {A} (p : A -> bool) l d : (count_leading p l < length l)%nat ->
+    p (nth (count_leading p l) l d) = false.
+  Proof.
+    induction l as [|x r IH]; cbn [count_leading length]; [lia|].
+    destruct (p x) eqn:E; cbn [nth length]; [intro H; apply IH; lia | intros _; exact E].
+  Qed.
+
+  (* no more addresses than necessary: when something was generated, either the chain now has exactly
+     [gap] rows or the row just below the final window of [gap] unused rows is a used one *)
+  Theorem ensure_gap_tight gap t : wf_table t -> snd (ensure_gap addr_of gap t) <> [] ->
+    let t' := fst (ensure_gap addr_of gap t) in
+    length t' = gap \/
+    ((gap < length t')%nat /\ unused (nth (length t' - gap - 1) t' (mk_row 0 [] 0)) = false).
+  Proof.
+    intros Hwf. unfold ensure_gap.
+    set (top := firstn gap (rev t)).
+    set (existing := count_leading unused top).
+    assert (Hex_le : (existing <= length top)%nat) by apply count_leading_le.
+    assert (Htop_len : length top = Nat.min gap (length t)) by (unfold top; rewrite firstn_length, rev_length; reflexivity).
+    destruct (Nat.eqb_spec existing gap) as [Heq|Hne]; [cbn [snd]; congruence|].
+    cbn [fst snd]. intros _. rewrite app_length, !map_length, seq_length.
+    destruct (Nat.eq_dec existing (length top)) as [Hall|Hstop].
+    - (* every existing row is unused and there are fewer than gap of them *)
+      left. lia.
+    - right. assert (Hlt : (existing < length top)%nat) by lia. split; [lia|].
+      pose proof (count_leading_stop unused top (mk_row 0 [] 0) Hlt) as Hu. fold existing in Hu.
+      replace (length t + (gap - existing) - gap - 1)%nat with (length t - existing - 1)%nat by lia.
+      rewrite app_nth1 by lia.
+      assert (En : nth existing top (mk_row 0 [] 0) = nth (length t - existing - 1) t (mk_row 0 [] 0)).
+      { unfold top. rewrite nth_firstn_lt by lia. rewrite rev_nth by lia. f_equal. lia. }
+      rewrite <- En. exact Hu.
   Qed.
 
   (* usage updates keep indices and addresses *)
